@@ -636,7 +636,8 @@ def signature(e, clause):
 
 def run_property(ctx, focus, size_quick, size_thorough, kinds=("seg", "grp", "zseg")):
     size = size_quick if ctx.tier == "quick" else size_thorough
-    versions = {"seg": ["2.5"], "grp": ["2.6"], "zseg": ["2.3"]} if ctx.tier == "quick" else ["2.5", "2.3", "2.8"]
+    versions = ({"seg": ["2.5"], "grp": ["2.6"], "zseg": ["2.3"]} if ctx.tier == "quick"
+                else {"seg": ["2.5", "2.3"], "grp": ["2.6", "2.4"], "zseg": ["2.3", "2.8"]})
     failures = explore(ctx, focus, kinds, versions, [False, True], size)
     for e, clause in failures:
         if clause in focus:
@@ -644,11 +645,12 @@ def run_property(ctx, focus, size_quick, size_thorough, kinds=("seg", "grp", "zs
         else:
             ctx.extra.setdefault("other_property_clauses_seen", {}).setdefault(clause, 0)
             ctx.extra["other_property_clauses_seen"][clause] += 1
-    ctx.rule = ("every reachable state of the bounded reference model (TLC graph dump) x every operation of the alphabet, "
+    ctx.rule = ("a seeded share of the reachable states of the bounded reference model (TLC graph dump; quick: 2-6 %, thorough: "
+                "15 % on two versions per concretisation) x every operation of the alphabet, "
                 "each reached by the shortest path and by random alternative paths, executed on real elements "
                 "(Segment PID with fields, Group ADT_A01_INSURANCE with segments; TOLERANT and STRICT); identical "
                 "(pre, op, outcome, post, views) observations are judged once; non-trivial = distinct (operation, "
                 "outcome class, concretisation, level, pre-state shape)")
-    ctx.exhaustive = size.get("state_fraction", 1.0) >= 1.0
+    ctx.exhaustive = False
     ctx.assumptions += ["projection through the public API only: children, by-name lookup, parent, to_er7, validate",
                         "object identities are compared modulo the allocation rule 'smallest free id'"]
